@@ -364,6 +364,14 @@ impl Inner {
             }
             Some(normal[idx])
         } else {
+            if !self.fair {
+                // livelock is judged on the fair tail only: yields spent under the scripted
+                // part of the schedule (where the virtual clock does not advance by itself) do
+                // not count
+                for th in self.th.iter_mut() {
+                    th.consec_yield = 0;
+                }
+            }
             self.fair = true;
             self.fair_left = FAIR_QUANTUM;
             // round robin: first runnable after cur
